@@ -84,6 +84,10 @@ func runC04(p *core.Prog, r *core.Report) {
 		return
 	}
 	cx := &c04ctx{p: p, r: r, fn: fn, syn: syn, info: syn.Pkg.TypesInfo, name: p.FuncName(fn)}
+	core.RecvHelper = func(info *types.Info, call *ast.CallExpr, argIdx int) bool {
+		return oneReceiveHelper(p, info, call, argIdx)
+	}
+	defer func() { core.RecvHelper = nil }()
 	if !cx.collect() {
 		return
 	}
@@ -580,7 +584,29 @@ func (cx *c04ctx) loops(body *ast.BlockStmt) ([]*ast.ForStmt, *cfg.CFG) {
 		}
 		// a barrier: the condition is exactly `n > 0`, nothing breaks out of it, and every iteration
 		// blocks on a completion (no spinning)
-		isBarrier := fs.Cond != nil && isCounterPositive(fs.Cond) && len(brk) == 0
+		// `for err == nil && n > 0` is a barrier as well: it is left early only with a failure collected,
+		// and R3 requires the nil edge of that error between the loop and the write
+		counterOrFailed := func(e ast.Expr) bool {
+			be, ok := ast.Unparen(e).(*ast.BinaryExpr)
+			if !ok || be.Op != token.LAND {
+				return false
+			}
+			isNilTest := func(x ast.Expr) bool {
+				c, ok := ast.Unparen(x).(*ast.BinaryExpr)
+				if !ok || c.Op != token.EQL {
+					return false
+				}
+				id, ok := ast.Unparen(c.X).(*ast.Ident)
+				y, ok2 := ast.Unparen(c.Y).(*ast.Ident)
+				if !ok || !ok2 || y.Name != "nil" {
+					return false
+				}
+				v, isVar := cx.info.Uses[id].(*types.Var)
+				return isVar && types.Identical(v.Type(), types.Universe.Lookup("error").Type())
+			}
+			return (isCounterPositive(be.X) && isNilTest(be.Y)) || (isNilTest(be.X) && isCounterPositive(be.Y))
+		}
+		isBarrier := fs.Cond != nil && (isCounterPositive(fs.Cond) || counterOrFailed(fs.Cond)) && len(brk) == 0
 		for s := range iter {
 			if s.A == 0 {
 				isBarrier = false
@@ -1057,7 +1083,7 @@ func c04R6(p *core.Prog, r *core.Report, trav *ssa.Function, rule string) {
 					return
 				}
 				cal := core.Callee(c)
-				if cal == nil || !(core.IsModMethod(cal, ".", "RegClient", "BlobGet") || core.IsModMethod(cal, ".", "RegClient", "BlobPut")) {
+				if cal == nil || !(core.IsClientOp(cal, "BlobGet") || core.IsClientOp(cal, "BlobPut")) {
 					return
 				}
 				n++
@@ -1303,7 +1329,7 @@ func globalNamed(v ssa.Value, name string) bool {
 // image.
 func c04R12(p *core.Prog, r *core.Report) {
 	const rule = "C04.R12"
-	r.Rule(rule, "the barrier never forgets a failure: inside a loop, a completion received from an error channel is stored over the collected error only behind a nil test of that error or a non-nil test of the received value, and is discarded only behind a non-nil test of the collected error (a child that finishes after a cancelled one must not turn the verdict back into success)", 3)
+	r.Rule(rule, "the barrier never forgets a failure: inside a loop, a completion received from an error channel is stored over the collected error only behind a nil test of that error or a non-nil test of the received value, and is discarded only behind a non-nil test of the collected error (a child that finishes after a cancelled one must not turn the verdict back into success)", 1)
 	errT := types.Universe.Lookup("error").Type()
 	isErrChan := func(t types.Type) bool {
 		ch, ok := t.Underlying().(*types.Chan)
@@ -1377,8 +1403,21 @@ func c04R12(p *core.Prog, r *core.Report) {
 			continue
 		}
 		lab := labeler{}
+		// a helper that receives one completion for a loop of its caller and is handed what was
+		// collected so far: the same rule with the error parameter in the role of the collected error
+		helperMode := false
+		for _, prm := range fn.Params {
+			if types.Identical(prm.Type(), errT) {
+				for _, st := range p.Callers(fn) {
+					if c, isCall := st.Site.(ssa.CallInstruction); isCall && core.CalleeFn(c) == fn && blockInCycle(st.Site.Block()) {
+						helperMode = true
+					}
+				}
+			}
+		}
 		for _, rc := range recvs {
-			if !blockInCycle(rc.at.Block()) {
+			inLoop := blockInCycle(rc.at.Block())
+			if !inLoop && !helperMode {
 				continue
 			}
 			n++
@@ -1386,7 +1425,7 @@ func c04R12(p *core.Prog, r *core.Report) {
 			// loop says nothing about what the loop has collected since
 			loopGuard := func(b *ssa.BasicBlock, pred func(c ssa.Value, pol bool) bool) bool {
 				for _, g := range core.Guards(b) {
-					if g.If == nil || g.If.Block().Parent() != fn || !blockReaches(rc.at.Block(), g.If.Block()) {
+					if g.If == nil || g.If.Block().Parent() != fn || (inLoop && !blockReaches(rc.at.Block(), g.If.Block())) {
 						continue
 					}
 					c, gp := core.StripNot(g.Cond, g.Polarity)
@@ -1459,13 +1498,35 @@ func c04R12(p *core.Prog, r *core.Report) {
 								ok, why = false, "merged over the collected error at "+p.Pos(x.Pos())
 							}
 						}
+					case *ssa.Return:
+						used = true
+						if !inLoop {
+							isErrParam := func(v ssa.Value) bool {
+								prm, ok := v.(*ssa.Parameter)
+								return ok && types.Identical(prm.Type(), errT)
+							}
+							if !nilGuard(x.Block(), isErrParam) && !nonNilGuard(x.Block(), func(v ssa.Value) bool { return v == rc.val }) {
+								ok, why = false, "returned in place of the collected error at "+p.Pos(x.Pos())
+							}
+						}
 					case *ssa.DebugRef:
 					default:
 						used = true
 					}
 				}
 			}
-			if !used {
+			if !used && !inLoop {
+				isErrParam := func(v ssa.Value) bool {
+					prm, ok := v.(*ssa.Parameter)
+					return ok && types.Identical(prm.Type(), errT)
+				}
+				if !nonNilGuard(rc.at.Block(), isErrParam) {
+					ok, why = false, "discarded although no failure has been collected"
+				}
+			} else if !used && callersPassFailure(p, fn, errT) {
+				// the function only runs once a failure has been collected: every caller hands it a
+				// non-nil error (the call sits behind the non-nil test of the value passed)
+			} else if !used {
 				// thrown away
 				if !nonNilGuard(rc.at.Block(), isCollected) {
 					ok, why = false, "discarded although no failure has been collected"
@@ -1501,4 +1562,101 @@ func blockReaches(from, to *ssa.BasicBlock) bool {
 		stack = append(stack, x.Succs...)
 	}
 	return false
+}
+
+// oneReceiveHelper: the call's callee is a module function that performs exactly one receive from the
+// channel parameter at argIdx, on every path (the receive dominates every return and is not in a
+// loop), and does nothing else with the channel.
+func oneReceiveHelper(p *core.Prog, info *types.Info, call *ast.CallExpr, argIdx int) bool {
+	var obj *types.Func
+	switch f := ast.Unparen(call.Fun).(type) {
+	case *ast.Ident:
+		obj, _ = info.Uses[f].(*types.Func)
+	case *ast.SelectorExpr:
+		obj, _ = info.Uses[f.Sel].(*types.Func)
+	}
+	if obj == nil {
+		return false
+	}
+	g := p.SSA.FuncValue(obj)
+	if g == nil || !p.InModule(g) || len(g.Blocks) == 0 {
+		return false
+	}
+	idx := argIdx
+	if g.Signature.Recv() != nil {
+		idx++
+	}
+	if idx >= len(g.Params) {
+		return false
+	}
+	prm := g.Params[idx]
+	if _, isChan := prm.Type().Underlying().(*types.Chan); !isChan || prm.Referrers() == nil {
+		return false
+	}
+	var recv ssa.Instruction
+	n := 0
+	for _, u := range *prm.Referrers() {
+		switch x := u.(type) {
+		case *ssa.UnOp:
+			if x.Op == token.ARROW {
+				recv = x
+				n++
+				continue
+			}
+			return false
+		case *ssa.DebugRef:
+		default:
+			return false
+		}
+	}
+	if n != 1 || blockInCycle(recv.Block()) {
+		return false
+	}
+	for _, ret := range core.Returns(g) {
+		if !core.DominatesInstr(recv, ret) {
+			return false
+		}
+	}
+	return true
+}
+
+// callersPassFailure: fn has an error parameter and every call of fn in the module passes, at that
+// position, a value that the call site has tested to be non-nil (the same value, or a load of the
+// same local cell).
+func callersPassFailure(p *core.Prog, fn *ssa.Function, errT types.Type) bool {
+	idx := -1
+	for i, prm := range fn.Params {
+		if types.Identical(prm.Type(), errT) {
+			idx = i
+		}
+	}
+	if idx < 0 {
+		return false
+	}
+	callers := p.Callers(fn)
+	if len(callers) == 0 {
+		return false
+	}
+	for _, st := range callers {
+		c, ok := st.Site.(ssa.CallInstruction)
+		if !ok || core.CalleeFn(c) != fn || idx >= len(c.Common().Args) {
+			return false
+		}
+		arg := c.Common().Args[idx]
+		same := func(x ssa.Value) bool {
+			if x == arg {
+				return true
+			}
+			la, ok1 := arg.(*ssa.UnOp)
+			lx, ok2 := x.(*ssa.UnOp)
+			return ok1 && ok2 && la.Op == token.MUL && lx.Op == token.MUL && la.X == lx.X
+		}
+		if !anyGuard(st.Site.Block(), func(cnd ssa.Value, pol bool) bool {
+			x, neq, isCmp := errCmpNil(cnd)
+			return isCmp && neq == pol && same(x)
+		}) {
+			return false
+		}
+	}
+	return true
 }
